@@ -29,6 +29,7 @@ def monitorOrdinals (r : Int) (S : List Int) (obs : String) : String :=
   verdict [
     ("C01.slots", implSlots == S),
     ("C01.pure", fieldD obs "mut" == "0"),
+    ("C01.private", fieldD obs "alias" == "0"),
     ("C01.next", parseIntList (fieldD obs "next") == desired (r + 3) S),
     ("C01.ords", ords == D),
     ("C01.ords2", ords2 == D),
@@ -44,7 +45,7 @@ def stepOrdinals (cas obs : String) : String :=
     let S := slotsOfAnnotation kind (hexDecode hex.toList)
     let p := maxReplicaAndSlots r S
     let ords := podOrdinals r S
-    let model := s!"slots={showIntList S} bound={p.1} eff={showIntList p.2} ords={showIntList ords} ords2={showIntList ords} max={maxOrd r S} min={minOrd r S} next={showIntList (podOrdinals (r + 3) S)} mut=0"
+    let model := s!"slots={showIntList S} bound={p.1} eff={showIntList p.2} ords={showIntList ords} ords2={showIntList ords} max={maxOrd r S} min={minOrd r S} next={showIntList (podOrdinals (r + 3) S)} mut=0 alias=0"
     let tag := (if kind != "raw" then "noann" else if (JsonInts.parse (hexDecode hex.toList)).isNone then "malformed" else
       if S.isEmpty then "empty" else if S.any (· < 0) then "negative" else if p.2.isEmpty then "allabove" else
       if p.2.length < S.length then "mixed" else "allinside")
